@@ -246,7 +246,7 @@ func (vc *VC) rangeFacts(x Term, t types.Type, depth int) Term {
 		}
 		// representation invariant of the struct type (`valinv`): holds for every
 		// value that was not built by the function under verification itself
-		if n, ok := t.(*types.Named); ok && n.Obj().Pkg() != nil && depth <= 1 && !vc.inValInv {
+		if n, ok := t.(*types.Named); ok && n.Obj().Pkg() != nil && depth <= 1 && !vc.inValInv && !vc.ss.noValInv {
 			for _, ti := range vc.w.cs.ValInvs {
 				if ti.Pkg == n.Obj().Pkg().Path() && ti.Type == n.Obj().Name() {
 					vc.inValInv = true
